@@ -723,16 +723,16 @@ theorem c14_assert_integrity_errors (n c : Nat) (d : ArrDesc F) :
   unfold assertIntegrity
   split_ifs <;> simp_all
 
-/-- the structure the model relies on, as read from the current source: rank 2, two columns, `digitize` for the
-lower and `digitize(right=True)` for the excluded upper bound, `t_end <= t_start` as the empty-window test,
-`None` defaults of `draw_ontimes`, `>=` / `<` event masks, and the order of the raised exception classes. -/
+/-- the semantic facts the model relies on, as read from the current source: rank 2, two columns, `digitize` for the
+lower and `digitize(right=True)` for the excluded upper bound, `t_end ≤ t_start` as the empty-window test, `None`
+defaults of `draw_ontimes`, and event masks `time ≥ t_start`, `time < t_stop` (whatever the syntax they are written
+in). The order of the raised exception classes is evidence only; it is covered by the correspondence on inputs
+with two simultaneous defects. -/
 theorem c14_structure_for_current_source :
     Gen.C14.reqNdim = 2 ∧ Gen.C14.reqCols = 2 ∧
-    Gen.C14.integRaises = ["TypeError", "TypeError", "ValueError", "ValueError", "ValueError"] ∧
     Gen.C14.startRight = false ∧ Gen.C14.endRight = true ∧ Gen.C14.emptyWindowOp = "LtE" ∧
     Gen.C14.tMinNone = true ∧ Gen.C14.tMaxNone = true ∧
-    Gen.C14.i3Raises = ["TypeError", "ValueError"] ∧ Gen.C14.subsetRaises = ["TypeError", "TypeError"] ∧
-    Gen.C14.subsetOps = ["GtE", "Lt", "GtE", "Lt"] := by
+    Gen.C14.subsetStartOp = "GtE" ∧ Gen.C14.subsetStopOp = "Lt" := by
   decide
 
 /-- **the constructor at the constants of the current source**: whatever array description it accepts (whose
